@@ -166,6 +166,62 @@ static int run_lastrefs(void)
 	return 0;
 }
 
+/* ---- highcount: a node shared so widely that its count is beyond 2^31 (counts are 32-bit unsigned; the harness sets
+ * the field instead of performing two thousand million gets).  A release that is not the last one neither reports
+ * 'freed' nor destroys, whatever the magnitude of the count; two threads hammer get/put around that magnitude. */
+#include "json_object_private.h"
+static json_object *high_node;
+static void *high_thread(void *a)
+{
+	(void)a;
+	for (int i = 0; i < 20000; i++)
+	{
+		json_object_get(high_node);
+		if (json_object_put(high_node) == 1)
+			__sync_add_and_fetch(&freed_reports, 1);
+	}
+	return NULL;
+}
+static int run_highcount(void)
+{
+	static const uint32_t bases[] = {0x7ffffff0u, 0x7fffffffu, 0x80000000u, 0x80000001u, 0xc0000000u, 0xfffffff0u};
+	long long early[8], reports[8], after[8];
+	for (int b = 0; b < 6; b++)
+	{
+		destroyed_total = 0;
+		freed_reports = 0;
+		json_object *n = json_object_new_object();
+		json_object_object_add(n, "k", json_object_new_int(1));
+		json_object_set_userdata(n, NULL, on_destroy_round);
+		((struct json_object *)n)->_ref_count = bases[b]; /* that many holders */
+		high_node = n;
+		long rep = 0;
+		for (int i = 0; i < 3; i++)
+			if (json_object_put(n) == 1) /* three of the holders let go */
+				rep++;
+		pthread_t th[2];
+		for (int i = 0; i < 2; i++)
+			pthread_create(&th[i], NULL, high_thread, NULL);
+		for (int i = 0; i < 2; i++)
+			pthread_join(th[i], NULL);
+		early[b] = destroyed_total;
+		reports[b] = rep + freed_reports;
+		/* everybody else lets go: the harness sets the count to 1 and releases the last reference */
+		if (!destroyed_total)
+		{
+			((struct json_object *)n)->_ref_count = 1;
+			json_object_put(n);
+		}
+		after[b] = destroyed_total;
+	}
+	ev_begin("highcount");
+	ev_ints("destroyed_early", early, 6);
+	ev_ints("early_freed_reports", reports, 6);
+	ev_ints("destroyed", after, 6);
+	ev_end();
+	return 0;
+}
+
 static void *seed_thread(void *a)
 {
 	targ *t = a;
@@ -296,6 +352,8 @@ int main(int argc, char **argv)
 		R = atoi(argv[3]);
 		return run_lastrefs();
 	}
+	if (argc >= 2 && !strcmp(argv[1], "highcount"))
+		return run_highcount();
 	if (argc >= 3 && !strcmp(argv[1], "seed"))
 	{
 		T = atoi(argv[2]);
